@@ -264,6 +264,15 @@ Definition Rm3 (O : Ops) (size x : list (T O)) : T O :=
 Definition zener1 (f m K Ravg : R) : R := if Rlt_dec 0 Ravg then npow f m / (K * Ravg) else 0.
 Definition span (O : Ops) (tn tprev : T O) : T O := sub O tn tprev.
 
+(* LoadDistribution / LoadDistributionFunction: the loaded distribution is normalised and THEN backed up (self._oldPSD);
+   reset() restores the backup (clock and recorded mean radius start again) *)
+Record gstate (O : Ops) := { g_psd : list (T O); g_backup : list (T O) }.
+Arguments g_psd {O} g.
+Arguments g_backup {O} g.
+Definition gload (O : Ops) (size raw : list (T O)) : gstate O :=
+  let p := normalize O size raw in {| g_psd := p; g_backup := p |}.
+Definition greset (O : Ops) (s : gstate O) : gstate O := {| g_psd := g_backup s; g_backup := g_backup s |}.
+
 (* ================================================================================================ *)
 (* hand-written part: how the pieces above are wired together                                       *)
 
